@@ -287,6 +287,9 @@ func (i *interpreter) equals(t types.Type, x, y value) value {
 	case uint:
 		return x == y.(uint)
 	case uint8:
+		if _, blob := y.(*jsonBlob); blob {
+			return false
+		}
 		return x == y.(uint8)
 	case uint16:
 		return x == y.(uint16)
@@ -360,7 +363,12 @@ func (i *interpreter) equals(t types.Type, x, y value) value {
 		}
 		return false
 	case *jsonBlob:
-		return i.blobEq(x, y.(*jsonBlob))
+		yb, ok := y.(*jsonBlob)
+		if !ok {
+			// an idealised encoded document never equals a single plain byte (as byteEq)
+			return false
+		}
+		return i.blobEq(x, yb)
 	}
 	panic(targetPanic{v: fmt.Sprintf("runtime error: comparing uncomparable type %s", t)})
 }
